@@ -117,6 +117,12 @@ fn c18_static<T: HLabel>(ctx: &mut Ctx, case: &StaticCase, built: &Built<T>, rng
                 for a in picks {
                     v.push(Query { kind: t.kind, args: vec![a], cert: rng.pct(50) });
                 }
+                // lists of 2-3 arguments: the bound is per component, whatever the number of listed arguments
+                if case.abs.n >= 2 {
+                    let k = 2 + rng.below(2);
+                    v.push(Query { kind: t.kind, args: (0..k).map(|_| rng.below(case.abs.n)).collect(), cert: rng.pct(50) });
+                    ctx.count("queries/argument-lists");
+                }
                 v
             };
             for q in queries {
@@ -228,6 +234,33 @@ fn c18_static<T: HLabel>(ctx: &mut Ctx, case: &StaticCase, built: &Built<T>, rng
                         let mut dd = detail("fine-grained search monitor");
                         dd["observation"] = d;
                         ctx.violation(&sig, dd, &case.to_json());
+                        continue;
+                    }
+                }
+                // bounded progress under a backend that dies at call j (and stays dead): the query must stop,
+                // not keep calling; decided on logical steps by the same cap
+                if calls >= 1 && focus.is_none() && rng.pct(20) {
+                    drop(s);
+                    let j = rng.range(1, calls as usize);
+                    let hf = monitor::new_handle();
+                    {
+                        let mut sf = hf.borrow_mut();
+                        sf.cap = Some((10 * bound + 64) as usize);
+                        sf.keep_models = false;
+                        sf.keep_clauses = false;
+                        sf.inject_unknown_from = Some(j);
+                    }
+                    let _ = ask_fresh(built, t.ty, enc, monitor::monitored_factory(Backend::Cadical, hf.clone()), &q);
+                    ctx.eval();
+                    ctx.count("queries/with-backend-dying-at-call-j");
+                    if hf.borrow().cap_hit {
+                        let calls_f = hf.borrow().n_calls;
+                        ctx.violation(
+                            &format!("C18/sat-call-cap-exceeded-after-backend-failure/{}/{}", t.problem(), enc.name()),
+                            json!({"problem": t.problem(), "encoder": enc.name(), "query": q.to_json(), "backend_fails_from_call": j,
+                                   "sat_calls": calls_f, "bound": bound, "what": "the backend answers Unknown from call j on; the query kept calling it beyond 10 x bound + 64"}),
+                            &case.to_json(),
+                        );
                         continue;
                     }
                 }
